@@ -64,6 +64,24 @@ func (fx *FnExec) calleeContract(cc *ssa.CallCommon) (*Contract, string) {
 			}
 		}
 	}
+	// a parameter of the enclosing function called from inside a closure (captured variable): same `funcparam F.p`
+	{
+		var fv *ssa.FreeVar
+		switch v := cc.Value.(type) {
+		case *ssa.FreeVar:
+			fv = v
+		case *ssa.UnOp:
+			if f, ok := v.X.(*ssa.FreeVar); ok && v.Op == token.MUL {
+				fv = f
+			}
+		}
+		if fv != nil && fx.fn.Parent() != nil {
+			k := "funcparam:" + keyOfFunction(fx.fn.Parent()) + "." + fv.Name()
+			if c := fx.e.contracts[k]; c != nil {
+				return c, k
+			}
+		}
+	}
 	// a function stored in a struct field: contract `funcfield T.f`
 	if u, ok := cc.Value.(*ssa.UnOp); ok {
 		if fa, ok := u.X.(*ssa.FieldAddr); ok {
